@@ -58,8 +58,10 @@ Definition try_ready (dbg : bool) (t : tracker) (why : sched_reason) : R (tracke
   | Paused p =>
       let ready := Ok (set_tr_status t Ready, true) in
       match why with
-      | SInit | SReady =>
+      | SInit =>
           if dbg && negb (match p with Busy => true | _ => false end) then Panic P_DBG_READY else ready
+      | SReady =>
+          match p with Busy => ready | _ => Ok (t, false) end
       | SNewFilter | SFreshData =>
           match p with Caughtup => ready | _ => Ok (t, false) end
       | SIncomingAck =>
@@ -108,11 +110,11 @@ Definition pause (st : rstate) (id : N) (why : pause_reason) : R rstate :=
   | None => Panic P_PAUSE_Q
   end.
 
-(** check_tracker_duplicates: is some filter_idx repeated among the tracker's requests *)
-Fixpoint has_dup_idx (seen : list N) (l : list drequest) : bool :=
+(** check_tracker_duplicates: is some filter repeated among the tracker's requests *)
+Fixpoint has_dup_idx (seen : list str) (l : list drequest) : bool :=
   match l with
   | [] => false
-  | r :: l' => set_mem N.eqb (dr_idx r) seen || has_dup_idx (dr_idx r :: seen) l'
+  | r :: l' => set_mem str_eqb (dr_filter r) seen || has_dup_idx (dr_filter r :: seen) l'
   end.
 Definition dbg_no_dups (st : rstate) (id : N) : R unit :=
   if cf_debug_assertions (r_cfg st) then
@@ -271,24 +273,32 @@ Definition dl_clean (dl : datalog) (id : N) : datalog * list drequest :=
   let '(items, q) := clean_items (sl_items (dl_native dl)) id in
   (set_dl_native dl {| sl_items := items; sl_free := sl_free (dl_native dl) |}, q).
 
-(** DataLog::remove_waiters_for_id(id, filter): ONE waiter of that connection on that
-    filter's log — looked up under the filter string as given *)
-Definition remove_waiters_for_id (st : rstate) (id : N) (f : str) : R rstate :=
-  let dl := r_datalog st in
-  match al_get str_eqb f (dl_findex dl) with
-  | None => Ok st
-  | Some idx =>
-      do d <- native_get dl idx;
-      match position_id (d_waiters d) id 0 with
-      | None => Ok st
+(** DataLog::remove_waiters_for_id(id, filter): the parked request of this connection for
+    exactly this subscription filter, searched over all logs in slab order *)
+Fixpoint position_req (l : list (N * drequest)) (id : N) (f : str) (i : N) : option N :=
+  match l with
+  | [] => None
+  | (c, rq) :: r => if (c =? id) && str_eqb (dr_filter rq) f then Some i else position_req r id f (i + 1)
+  end.
+Fixpoint remove_waiter_items (items : list (option data)) (id : N) (f : str) : list (option data) :=
+  match items with
+  | [] => []
+  | None :: r => None :: remove_waiter_items r id f
+  | Some d :: r =>
+      match position_req (d_waiters d) id f 0 with
       | Some i =>
           match swap_remove_back (d_waiters d) i with
-          | None => Ok st
-          | Some (_, w') =>
-              Ok (set_r_datalog st (set_dl_native dl (slab_put (dl_native dl) idx (set_d_waiters d w'))))
+          | Some (_, w') => Some (set_d_waiters d w') :: r
+          | None => Some d :: r
           end
+      | None => Some d :: remove_waiter_items r id f
       end
   end.
+Definition remove_waiters_for_id (st : rstate) (id : N) (f : str) : R rstate :=
+  let dl := r_datalog st in
+  Ok (set_r_datalog st (set_dl_native dl
+        {| sl_items := remove_waiter_items (sl_items (dl_native dl)) id f;
+           sl_free := sl_free (dl_native dl) |})).
 
 Fixpoint retained_matching (f : str) (m : list (str * pubdata)) : R (list str) :=
   match m with
@@ -547,7 +557,7 @@ Fixpoint rewind_requests (rqs : list drequest) (retr : list (N * cursor)) (gs : 
              | Some name =>
                  match al_get str_eqb name gs with
                  | Some g => Ok (al_set str_eqb name (set_g_cursor g cu) gs)
-                 | None => Panic P_GROUP
+                 | None => Ok gs                 (* the group is gone if this was its last member *)
                  end
              | None => Ok gs
              end);
@@ -737,11 +747,28 @@ Fixpoint unsubscribe_filters (st : rstate) (id : N) (client : str) (pkid : N) (f
                                             | None => None
                                             end;
                               c_subids := al_remove str_eqb f (c_subids conn) |} in
-              let st2 := set_r_groups (put_conn st1 id conn1) (groups_remove_client (r_groups st1) client) in
+              let groups :=
+                match extract_group f with
+                | Some (gname, _) =>
+                    match al_get str_eqb gname (r_groups st1) with
+                    | Some g =>
+                        let g' := group_remove_client g client in
+                        match g_clients g' with
+                        | [] => al_remove str_eqb gname (r_groups st1)
+                        | _ => al_set str_eqb gname g' (r_groups st1)
+                        end
+                    | None => r_groups st1
+                    end
+                | None => r_groups st1
+                end in
+              let st2 := set_r_groups (put_conn st1 id conn1) groups in
               do st3 <- commit_ack st2 id (AUnsubAck pkid);
               do st4 <- untrack st3 id f;
               do st5 <- remove_waiters_for_id st4 id f;
-              unsubscribe_filters st5 id client pkid r (fl_ack fl)
+              let st6 := set_r_notif st5
+                    (filter (fun x : N * drequest => negb ((fst x =? id) && str_eqb (dr_filter (snd x)) f))
+                            (r_notif st5)) in
+              unsubscribe_filters st6 id client pkid r (fl_ack fl)
       end
   end.
 
@@ -1033,7 +1060,7 @@ Fixpoint last_opt {X} (l : list X) : option X :=
 
 Definition retrieve_shadow (st : rstate) (id : N) (f : str) : R rstate :=
   match slab_get (r_obufs st) id with
-  | None => Panic P_OBUF_INDEX
+  | None => Ok st
   | Some o =>
       match al_get str_eqb f (dl_findex (r_datalog st)) with
       | None => Ok st
@@ -1118,7 +1145,11 @@ Definition step (st : rstate) (o : rop) : R (rstate * rout) :=
       | None => Ok (st, OutNoLink)
       | Some b => Ok (link_put st k (set_lk_out b []), OutDrain (lk_out b))
       end
-  | OpReady id => do st1 <- reschedule st id SReady; Ok (st1, OutUnit)
+  | OpReady id =>
+      match slab_get (r_trackers st) id with
+      | Some _ => do st1 <- reschedule st id SReady; Ok (st1, OutUnit)
+      | None => Ok (st, OutUnit)
+      end
   | OpDisconnect id => do st1 <- handle_disconnection st id None; Ok (st1, OutUnit)
   | OpShadow id f => do st1 <- retrieve_shadow st id f; Ok (st1, OutUnit)
   | OpWill c => do st1 <- handle_last_will st c; Ok (st1, OutUnit)
